@@ -189,10 +189,16 @@ def case_worker(case):
         if opts["emit"] == "json_schema":
             import json
             try:
-                json.load(open(out))
+                data = json.load(open(out))
                 res["json_ok"] = True
             except Exception as e:  # noqa
                 res["problems"].append({"clause": "json_schema output is not JSON", "detail": str(e), "cls": "C19/json"})
+                return res
+            schemas = data["schemas"] if isinstance(data, dict) and isinstance(data.get("schemas"), list) else [data]
+            if len(schemas) != len(entries):
+                res["problems"].append({"clause": "the written document does not hold one schema per entry of the input mapping",
+                                        "entries": [e[0] for e in entries], "schemas": [str((s_ or {}).get("$id"))[-60:] for s_ in schemas],
+                                        "cls": "C19/json-schema-count"})
             return res
         text = open(out).read()
         try:
